@@ -78,6 +78,7 @@ macro_rules! dispatch {
             "C11" => $f::<props::c11::C11>($($args),*),
             "C12" => $f::<props::c12::C12>($($args),*),
             "C14" => $f::<props::c14::C14>($($args),*),
+            "C15" => $f::<props::c15::C15>($($args),*),
             "C16" => $f::<props::c16::C16>($($args),*),
             "C17" => $f::<props::c17::C17>($($args),*),
             "C19" => $f::<props::c19::C19>($($args),*),
